@@ -6,17 +6,11 @@ sentence with every *known* feature replaced by its ordinary alternative (gen_co
 different defect hiding in a sentence that also has a known feature is still reported as a violation."""
 import gen_core as G
 
-# feature prefix -> removable?
-KNOWN = {
-    "cparam:nonu": True, "cparam:unc": True, "real:zaid-like": True, "real:fortran-after-dot": True,
-    "particle-keyword:": True, "particle-symbol:": True, "particle-comment:": True, "tally-mod:+": True,
-    "sdef-empty": False, "paren-lead-pad:": True, "mat-plain-after-lib": True, "mul-real": True,
-    "chained-shortcuts-3": True, "paren-then-complement": True, "percell-shortcut:": True, "lib-suffix-e": True,
-}
+KNOWN = G.KNOWN_FEATURES
 
 
 def known(tag):
-    return any(tag.startswith(k) for k in KNOWN)
+    return G.known_feature(tag)
 
 
 def removable(tag):
@@ -44,7 +38,7 @@ def _sentence_matches(case, params):
     mask = case.get("mask", "0")
     block = case["block"]
     feats = G.features(shape)
-    mine = [t for t in feats if t.startswith(params["tag"])]
+    mine = sorted(t for t in feats if t.startswith(params["tag"]) and known(t))
     if not mine:
         return False
     if params.get("shape_kind") and shape[0] not in params["shape_kind"]:
